@@ -19,7 +19,7 @@ CMP = {ast.Eq: operator.eq, ast.NotEq: operator.ne, ast.Lt: operator.lt, ast.LtE
        ast.Is: operator.is_, ast.IsNot: operator.is_not}
 
 
-STR_METHODS = {"upper", "lower", "strip", "lstrip", "rstrip", "startswith", "endswith", "split", "ljust", "rjust", "replace", "find", "rfind", "isdigit", "isalpha"}
+STR_METHODS = {"format", "zfill", "upper", "lower", "strip", "lstrip", "rstrip", "startswith", "endswith", "split", "ljust", "rjust", "replace", "find", "rfind", "isdigit", "isalpha"}
 
 
 class Struct:
@@ -97,20 +97,22 @@ def fold(node, env=None, ctors=()):
         if isinstance(n, ast.Dict):
             return {f(k): f(v) for k, v in zip(n.keys, n.values)}
         if isinstance(n, ast.Compare) and len(n.ops) == 1 and type(n.ops[0]) in CMP:
-            return CMP[type(n.ops[0])](f(n.left), f(n.comparators[0]))
+            try:
+                return CMP[type(n.ops[0])](f(n.left), f(n.comparators[0]))
+            except TypeError as e:
+                raise NotConst(str(e))
         if isinstance(n, ast.BoolOp):
-            vals = [f(v) for v in n.values]
             if isinstance(n.op, ast.And):
                 r = True
-                for v in vals:
-                    r = v
-                    if not v:
+                for v in n.values:
+                    r = f(v)
+                    if not r:
                         break
                 return r
             r = False
-            for v in vals:
-                r = v
-                if v:
+            for v in n.values:
+                r = f(v)
+                if r:
                     break
             return r
         if isinstance(n, ast.IfExp):
@@ -264,7 +266,8 @@ def fold_body(stmts, env, ctors=(), calls=None, max_steps=20000, final=None):
                     self.generic_visit(node)
                     fn = ast.unparse(node.func)
                     if fn in calls:
-                        return ast.copy_location(ast.Constant(calls[fn](*[fold(a, env, ctors) for a in node.args])), node)
+                        kw = {k.arg: fold(k.value, env, ctors) for k in node.keywords if k.arg}
+                        return ast.copy_location(ast.Constant(calls[fn](*[fold(a, env, ctors) for a in node.args], **kw)), node)
                     return node
             if any(isinstance(x, ast.Call) and ast.unparse(x.func) in calls for x in ast.walk(n)):
                 import copy
